@@ -26,7 +26,6 @@ TEXT = {
 PENDING = {
  'C06': 'futures/waker layer (coq/theories/L2) still under construction in this session; wake-position exploration exists in the harness but no theorem yet, so the property is not claimed',
  'C07': 'futures layer (coq/theories/L2) still under construction; not claimed until its theorems compile',
- 'C08': 'SyncFuture layer (coq/theories/SyncFut) still under construction; not claimed until its theorems compile',
  'C10': 'needs gated operations in the L1 liveness proof (terminal states with k blocked pool threads); only the gate profile of the harness exists; not claimed',
  'C13': 'depends on the futures layer (coq/theories/L2); the suspend oracle exists in the harness but no theorem yet; not claimed',
 #'C14': 'memory safety of the Rust implementation itself (aliasing, transmute validity, allocator behaviour) cannot be stated over the executable model; the lifetime protocol it relies on is covered by C01/C02/C04/C05 and by canary payloads in every profile; a dedicated protocol theorem is not built yet',
